@@ -66,6 +66,10 @@ Definition spec_keys (valid l : list Z) : list Z :=
   zsort (match nodup Z.eq_dec l with [] => valid | _ => nodup Z.eq_dec l end).
 Definition attrs_valid (valid l : list Z) : bool := forallb (fun a => zmem a valid) l.
 
+(* one yield: (pid, object token, keys of the info dict) *)
+Definition ytriple := (Z * nat * option (list Z))%type.
+Definition ypid (y : ytriple) : Z := fst (fst y).
+
 (* ---- ghost state of one generator *)
 Record ghost := {
   gh_started : bool;                 (* its body was entered (first next()) *)
@@ -76,34 +80,64 @@ Record ghost := {
   gh_cache : dict;                   (* the cache at that moment *)
   gh_marked : list Z;                (* PIDs marked as reused by is_running() at that moment *)
   gh_heap0 : nat;                    (* objects existing at that moment have tokens < gh_heap0 *)
-  gh_yields : list (Z * nat * option (list Z));   (* (pid, object, info keys), newest first *)
-  gh_vanished : list Z }.            (* PIDs removed from the table since then *)
+  gh_yields : list ytriple;          (* (pid, object, info keys), newest first *)
+  gh_vanished : list Z;              (* PIDs removed from the table since then *)
+  gh_repl : list Z;                  (* yielded PIDs whose cached object carried the reused flag when yielded *)
+  gh_passed : list (Z * bool) }.     (* listed PIDs passed over between two yields (or before the stop), with
+                                        "was in the table at that next()" *)
 
 Definition gh_fresh (a : attrs_t) : ghost :=
   {| gh_started := false; gh_done := false; gh_exhausted := false; gh_attrs := a; gh_list := [];
-     gh_cache := []; gh_marked := []; gh_heap0 := 0%nat; gh_yields := []; gh_vanished := [] |}.
+     gh_cache := []; gh_marked := []; gh_heap0 := 0%nat; gh_yields := []; gh_vanished := [];
+     gh_repl := []; gh_passed := [] |}.
 Definition gh_none : ghost :=
   {| gh_started := false; gh_done := true; gh_exhausted := false; gh_attrs := None; gh_list := [];
-     gh_cache := []; gh_marked := []; gh_heap0 := 0%nat; gh_yields := []; gh_vanished := [] |}.
+     gh_cache := []; gh_marked := []; gh_heap0 := 0%nat; gh_yields := []; gh_vanished := [];
+     gh_repl := []; gh_passed := [] |}.
 
 Definition gh_enter (s : st) (gh : ghost) : ghost :=
   {| gh_started := true; gh_done := false; gh_exhausted := false; gh_attrs := gh_attrs gh;
      gh_list := listing (tbl s); gh_cache := pmap s; gh_marked := reused s; gh_heap0 := nobj s;
-     gh_yields := []; gh_vanished := [] |}.
-Definition gh_push (gh : ghost) (y : Z * nat * option (list Z)) : ghost :=
+     gh_yields := []; gh_vanished := []; gh_repl := []; gh_passed := [] |}.
+(* a yield is recorded together with: was the cached object for that PID flagged (pre-state [s]);
+   which listed PIDs were passed over since the previous yield *)
+Definition gh_push (gh : ghost) (y : ytriple) (repl : bool) (passed : list (Z * bool)) : ghost :=
   {| gh_started := gh_started gh; gh_done := gh_done gh; gh_exhausted := gh_exhausted gh; gh_attrs := gh_attrs gh;
      gh_list := gh_list gh; gh_cache := gh_cache gh; gh_marked := gh_marked gh; gh_heap0 := gh_heap0 gh;
-     gh_yields := y :: gh_yields gh; gh_vanished := gh_vanished gh |}.
-Definition gh_finish (gh : ghost) (exhausted : bool) : ghost :=
+     gh_yields := y :: gh_yields gh; gh_vanished := gh_vanished gh;
+     gh_repl := if repl then ypid y :: gh_repl gh else gh_repl gh; gh_passed := passed ++ gh_passed gh |}.
+Definition gh_finish (gh : ghost) (exhausted : bool) (passed : list (Z * bool)) : ghost :=
   {| gh_started := gh_started gh; gh_done := true; gh_exhausted := exhausted; gh_attrs := gh_attrs gh;
      gh_list := gh_list gh; gh_cache := gh_cache gh; gh_marked := gh_marked gh; gh_heap0 := gh_heap0 gh;
-     gh_yields := gh_yields gh; gh_vanished := gh_vanished gh |}.
+     gh_yields := gh_yields gh; gh_vanished := gh_vanished gh; gh_repl := gh_repl gh;
+     gh_passed := passed ++ gh_passed gh |}.
 Definition gh_vanish (gh : ghost) (p : Z) : ghost :=
   if gh_started gh && negb (gh_done gh) then
     {| gh_started := gh_started gh; gh_done := gh_done gh; gh_exhausted := gh_exhausted gh; gh_attrs := gh_attrs gh;
        gh_list := gh_list gh; gh_cache := gh_cache gh; gh_marked := gh_marked gh; gh_heap0 := gh_heap0 gh;
-       gh_yields := gh_yields gh; gh_vanished := p :: gh_vanished gh |}
+       gh_yields := gh_yields gh; gh_vanished := p :: gh_vanished gh; gh_repl := gh_repl gh;
+       gh_passed := gh_passed gh |}
   else gh.
+
+Definition cached_flag (s : st) (gh : ghost) (p : Z) : bool :=
+  match dget p (gh_cache gh) with Some o' => o_reused (heap s o') | None => false end.
+
+(* listed PIDs strictly between the last yielded PID and [hi] (no upper bound for None) *)
+Definition gap (gh : ghost) (hi : option Z) : list Z :=
+  filter (fun q => match gh_yields gh with y :: _ => ypid y <? q | [] => true end
+                   && match hi with Some p => q <? p | None => true end) (gh_list gh).
+Definition passed_now (s : st) (gh : ghost) (hi : option Z) : list (Z * bool) :=
+  map (fun q => (q, alive (tbl s) q)) (gap gh hi).
+
+(* the ghost after a next() that answered [o], in pre-state [s] *)
+Definition gh_after (s : st) (gh1 : ghost) (o : out) : ghost :=
+  match o with
+  | OYield p ob i => gh_push gh1 (p, ob, i) (cached_flag s gh1 p) (passed_now s gh1 (Some p))
+  | OStop => gh_finish gh1 true (passed_now s gh1 None)
+  | OExc _ => gh_finish gh1 false []
+  | OOom => gh_finish gh1 false []
+  | _ => gh1
+  end.
 
 Definition ghosts := nat -> ghost.
 Definition gset (G : ghosts) (g : nat) (x : ghost) : ghosts := fun g' => if Nat.eqb g' g then x else G g'.
@@ -117,14 +151,8 @@ Definition gupd (s : st) (e : ev) (o : out) (G : ghosts) : ghosts :=
     let gh := G g in
     if gh_done gh then G else
     let gh1 := if gh_started gh then gh else gh_enter s gh in
-    gset G g (match o with
-              | OYield p ob i => gh_push gh1 (p, ob, i)
-              | OStop => gh_finish gh1 true
-              | OExc _ => gh_finish gh1 false
-              | OOom => gh_finish gh1 false
-              | _ => gh1
-              end)
-  | IterClose g => if Nat.leb (ngen s) g then G else if gh_done (G g) then G else gset G g (gh_finish (G g) false)
+    gset G g (gh_after s gh1 o)
+  | IterClose g => if Nat.leb (ngen s) g then G else if gh_done (G g) then G else gset G g (gh_finish (G g) false [])
   | Reap p => if alive (tbl s) p then fun g => gh_vanish (G g) p else G
   | _ => G
   end.
@@ -139,10 +167,6 @@ Definition irun (valid : list Z) (h : list ev) : st * ghosts :=
    PID is marked as reused *)
 Definition skip_class (gh : ghost) : bool :=
   existsb (fun p => zmem p (gh_list gh) && zmem p (dkeys (gh_cache gh))) (gh_marked gh).
-
-(* one yield: (pid, object token, keys of the info dict) *)
-Definition ytriple := (Z * nat * option (list Z))%type.
-Definition ypid (y : ytriple) : Z := fst (fst y).
 
 (* does attrs make as_dict call Process.ppid() (which first runs is_running())? *)
 Definition req_ppid (valid : list Z) (a : attrs_t) : bool :=
